@@ -202,7 +202,7 @@ def sibling_frame(rng, desc):
 
 
 def generate(rng, tier):
-    n = 300 if tier == "quick" else 6000
+    n = 230 if tier == "quick" else 6000
     return [gen_case(rng, tier) for _ in range(n)]
 
 
